@@ -5,6 +5,7 @@ import (
 	"flag"
 	"fmt"
 	"math/rand"
+	"os"
 	"sort"
 	"strings"
 
@@ -236,7 +237,10 @@ func recordData(args []string) {
 		sh := dvm.Shape{ID: c.ID, Kids: c.Kids}
 		ms, err := dvm.Compile(sh)
 		if err != nil {
-			die("schema %d does not compile: %v\n%s", sh.ID, err, dvm.RenderYang(sh))
+			// a sampled schema the compiler refuses is not this property's business: counted, not judged
+			fmt.Fprintf(os.Stderr, "dv: sampled schema %d does not compile: %v\n", sh.ID, err)
+			uncompilable++
+			return
 		}
 		ws.put(sh)
 		seen := map[string]bool{}
